@@ -35,6 +35,8 @@ def base_water():
         {"op": "pipe", "id": "pD", "from": "j2", "to": "j3", "length_km": 0.25, "d_mm": 50.0, "u": 12.0, "sections": 3},
         {"op": "pipe", "id": "pE", "from": "j3", "to": "j4", "length_km": 0.15, "d_mm": 40.0, "u": 12.0, "sections": 2},
         {"op": "valve", "id": "vA", "et": "pi", "from": "j2", "pipe": "pD"},
+        {"op": "valve", "id": "vC", "et": "pi", "from": "j1", "pipe": "pB"},     # three valve groups: their order under
+        {"op": "valve", "id": "vD", "et": "pi", "from": "j4", "pipe": "pE"},     # relabelling covers every permutation
         {"op": "valve", "id": "vB", "from": "j1", "to": "j4", "d_mm": 30.0, "zeta": 5.0},
         {"op": "sink", "id": "s2", "junction": "j2", "mdot": 0.25},
         {"op": "sink", "id": "s3", "junction": "j3", "mdot": 0.15},
@@ -47,8 +49,8 @@ def base_water():
 
 def base_gas():
     ops = []
-    for i in range(5):
-        ops.append({"op": "junction", "id": "j%d" % i, "pn_bar": 1.0, "tfluid_k": 290.0 + 3 * i})
+    for i in range(7):
+        ops.append({"op": "junction", "id": "j%d" % i, "pn_bar": 1.0, "tfluid_k": 290.0 + 3 * min(i, 4)})
     ops += [
         {"op": "ext_grid", "id": "eg0", "junction": "j0", "p_bar": 1.0, "t_k": 290.0},
         {"op": "ext_grid", "id": "eg1", "junction": "j4", "p_bar": 0.9, "t_k": 302.0},  # = start temperature of j4 (consistent description)
@@ -57,6 +59,9 @@ def base_gas():
         {"op": "pipe", "id": "pB", "from": "j1", "to": "j2", "length_km": 0.8, "d_mm": 60.0, "sections": 1},
         {"op": "pipe", "id": "pC", "from": "j2", "to": "j3", "length_km": 0.6, "d_mm": 60.0, "sections": 3},
         {"op": "compressor", "id": "cA", "from": "j3", "to": "j4", "ratio": 1.1},
+        {"op": "press_control", "id": "pcA", "from": "j2", "to": "j5", "controlled": "j6", "p_bar": 0.7, "check_controllability": False},
+        {"op": "pipe", "id": "pD", "from": "j5", "to": "j6", "length_km": 0.3, "d_mm": 50.0},
+        {"op": "sink", "id": "s6", "junction": "j6", "mdot": 0.002},
         {"op": "sink", "id": "s1", "junction": "j1", "mdot": 0.008},
         {"op": "sink", "id": "s2", "junction": "j2", "mdot": 0.006},
         {"op": "sink", "id": "s3", "junction": "j3", "mdot": 0.004},
@@ -89,6 +94,8 @@ POOLS = {
     "gaps": lambda n: [3, 7, 12, 40, 41, 77, 90][:n],
     "mixed": lambda n: [50, 2, 31, 8, 19, 4, 66][:n],
     "big": lambda n: [1, 100000, 5, 200001, 9, 300007, 12][:n],
+    # beyond 2^24: labels that a 32 bit float cannot represent exactly
+    "huge": lambda n: [20000005, 20000004, 20000002, 20000000, 20000001, 20000007, 20000003][:n],
 }
 
 
@@ -117,12 +124,14 @@ def cases(tier):
                         pools = ["range", "gaps", "mixed", "big"]
                     if tier == "quick" and table not in ("junction", "pipe"):
                         pools = ["mixed", "big"]
+                    if table == "junction":
+                        pools = pools + ["huge"]
                     for pool in pools:
                         labs = POOLS[pool](n)
                         perms = itertools.permutations(labs)
-                        if tier == "quick" and n > 4:
+                        if pool == "huge" or (tier == "quick" and n > 4):
                             # quick: all permutations of the first pool, all cyclic shifts + reversals of the others
-                            if pool != "range":
+                            if pool != "range" or n > 5:
                                 perms = [tuple(labs[i:] + labs[:i]) for i in range(n)] + \
                                         [tuple(reversed(labs[i:] + labs[:i])) for i in range(n)]
                         for perm in perms:
